@@ -5,6 +5,7 @@ VARIABLE cs
 Ok(e) == /\ e.ev = "similar" /\ e.out = "ok"
          /\ e.gh = Sim(cs.g, cs.h, cs.tol)
          /\ e.hg = e.gh                                   \* symmetric
+         /\ e.inputsame                                    \* neither operand has been written to
          /\ e.agh = e.gh /\ e.ahg = e.hg                   \* the same answers when the two values share their storage
 Apply(e) == UNCHANGED cs
 Reset(e) == cs' = e
